@@ -313,16 +313,18 @@ Fixpoint serial (s : store) (secs : list section) : option store :=
   end.
 
 (* ---- correspondence: the harness' observations, checked step by step ----
-   each item: the event and what the implementation returned; a timeout observed on the implementation
-   must be a blocked access in the model (single driver thread, positive timeout: nobody can release
-   meanwhile), and an access that succeeded must be enabled. *)
-Fixpoint check_run (st : state) (l : list (event * option val)) : bool :=
+   each item: the event and what the implementation returned; an access that succeeded must be enabled; with
+   `strict` (lock timeout of a millisecond or more, single driver thread: nobody can release meanwhile) a timeout
+   observed on the implementation must be a blocked access in the model.  With a timeout of 0 or 1 ns `select` may
+   find the timer and the free lock ready together, so there the model's own latitude (ETimeout enabled whenever
+   the caller does not hold the lock) is all that is demanded. *)
+Fixpoint check_run (strict : bool) (st : state) (l : list (event * option val)) : bool :=
   match l with
   | [] => true
   | (e, expd) :: rest =>
-      (match e with ETimeout i v => blocked st i v | _ => true end) &&
+      (match e with ETimeout i v => negb strict || blocked st i v | _ => true end) &&
       match step st e with
-      | Some (st', out) => oval_eqb out expd && check_run st' rest
+      | Some (st', out) => oval_eqb out expd && check_run strict st' rest
       | None => false
       end
   end.
@@ -334,12 +336,12 @@ Fixpoint init_of (l : list val) (n : nat) : val :=
   | _ :: l', S n' => init_of l' n'
   end.
 
-Fixpoint mismatches_from (i : nat) (cases : list (list val * list (event * option val))) : list nat :=
+Fixpoint mismatches_from (i : nat) (cases : list (bool * list val * list (event * option val))) : list nat :=
   match cases with
   | [] => []
-  | (ini, l) :: rest =>
+  | (strict, ini, l) :: rest =>
       let m := mismatches_from (S i) rest in
-      if check_run (init_state (init_of ini)) l then m else i :: m
+      if check_run strict (init_state (init_of ini)) l then m else i :: m
   end.
 
 (* for replay output: the model's outputs, stopping at the first event that is not enabled *)
